@@ -3,6 +3,7 @@ package main
 import (
 	"fmt"
 	"math/rand"
+	"strings"
 )
 
 // genMapCase: a random history over up to 4 tree slots with clone / persist / reload points.
@@ -132,6 +133,30 @@ func genMapCase(r *rand.Rand, cfg Cfg, nops int, usize int) Case {
 
 func treeExecutor(c Cfg) Executor { return NewSession(c) }
 
+// mapNorm: C01's alphabet is results, sizes and iterations; heights and dirtiness belong to
+// other properties.
+func mapNorm(line, obs string) string {
+	f := strings.Fields(line)
+	o := strings.Fields(obs)
+	switch f[0] {
+	case "ins", "del":
+		if len(o) == 3 && o[0] == "ok" {
+			return o[0] + " " + o[1]
+		}
+	case "stat":
+		if len(o) == 3 {
+			return o[0]
+		}
+	case "root":
+		if len(o) == 4 {
+			return "root size=" + o[1]
+		}
+	}
+	return obs
+}
+
+var mapRunner = Runner{Mk: treeExecutor, Norm: mapNorm}
+
 func multiLevel(st CaseStats) bool { return st.MaxHeight >= 1 && st.HeightChanges >= 1 }
 
 // famMap — C01: results, sizes, heights and full iterations of random histories, compared with
@@ -139,7 +164,7 @@ func multiLevel(st CaseStats) bool { return st.MaxHeight >= 1 && st.HeightChange
 func famMap(f *FamCtx) {
 	f.Report.Rule = "random histories (insert/update/equal-upsert/delete hit+miss+wrong value/get/iter/stat/clone/persist/reload) over key universes of 3..200 keys, all key kinds, value kinds, bf in {2,3,4,16}, both node formats, cache none/big/tiny; distinct = distinct (cfg, op list); non-trivial = reached height >= 1 and changed height at least once"
 	n := f.N(150, 6000)
-	for i := 0; i < n; i++ {
+	f.Gen = func() Case {
 		cfg := RandCfg(f.Rand)
 		us := 3 + f.Rand.Intn(60)
 		if f.Rand.Intn(5) == 0 {
@@ -149,6 +174,9 @@ func famMap(f *FamCtx) {
 		if f.Rand.Intn(6) == 0 {
 			nops = 200 + f.Rand.Intn(300)
 		}
-		f.RunTreeCase(genMapCase(f.Rand, cfg, nops, us), treeExecutor, multiLevel)
+		return genMapCase(f.Rand, cfg, nops, us)
+	}
+	for i := 0; i < n; i++ {
+		f.RunTreeCase(f.Gen(), mapRunner, multiLevel)
 	}
 }
